@@ -613,6 +613,16 @@ func Run(r *core.Run) {
 	t0 = time.Now()
 	checkCases(r, voc, cases, st)
 	r.Logf("replayed %d cases (%d outputs) in %.1fs", st.cases, st.outputs, time.Since(t0).Seconds())
+	// CSS modules: a slice of the same cases through loader local-css behind a JavaScript entry
+	var local []*Case
+	for i, c := range cases {
+		if i%r.Pick(6, 4) == 0 && c.Family != "witness" {
+			local = append(local, c)
+		}
+	}
+	t0 = time.Now()
+	checkLocal(r, voc, local, st)
+	r.Logf("css modules: %d cases in %.1fs", len(local), time.Since(t0).Seconds())
 	if impCases != nil {
 		t0 = time.Now()
 		checkImports(r, voc, graphs, impCases, st)
